@@ -208,6 +208,48 @@ theorem format_never_fails (n : Nat) (frags : List Frag) : checkFormat n frags (
 /-- and it does panic when a fragment reaches beyond the line (the guarantee is needed) -/
 example : formatLine 5 [⟨1, 2⟩, ⟨2, 9⟩] = none ∧ formatLine 5 [⟨1, 2⟩, ⟨3, 2⟩] = some [⟨0, 1, 3, 3⟩, ⟨3, 3, 5, 5⟩] := by decide
 
+/-! ### rendering never fails: the template functions that handle index text -/
+
+/-- **`LimitPre` never fails**, whatever the bytes and the limit: its slice expression is always in range -/
+theorem limitPre_never_fails (limit : Nat) (pre : Str) : (limitPre limit pre).isSome = true := by
+  unfold limitPre goSliceFrom
+  split
+  · rfl
+  · rename_i h
+    have : (0 : Int) ≤ (pre.length : Int) - limit ∧ (pre.length : Int) - limit ≤ (pre.length : Int) := by omega
+    simp [this]
+    try omega
+
+/-- **`LimitPost` never fails** -/
+theorem limitPost_never_fails (limit : Nat) (post : Str) : (limitPost limit post).isSome = true := by
+  unfold limitPost goSliceTo
+  split
+  · rfl
+  · rename_i h
+    have : (0 : Int) ≤ (limit : Int) ∧ (limit : Int) ≤ (post.length : Int) := by omega
+    simp [this]
+    try omega
+
+/-- what `LimitPre` shows is the skip marker followed by exactly the last `limit` bytes of the value, untouched (it may cut
+    a multi-byte character: the escapers are proved for arbitrary bytes, so that is harmless) -/
+theorem limitPre_shows_suffix (limit : Nat) (pre : Str) (h : limit ≤ pre.length) :
+    limitPre limit pre = some (skippedMark (pre.length - limit) ++ pre.drop (pre.length - limit)) ∧
+    (pre.drop (pre.length - limit)).length = limit := by
+  unfold limitPre goSliceFrom
+  have h1 : ¬ pre.length < limit := by omega
+  have h2 : (0 : Int) ≤ (pre.length : Int) - limit ∧ (pre.length : Int) - limit ≤ (pre.length : Int) := by omega
+  have h3 : ((pre.length : Int) - (limit : Int)).toNat = pre.length - limit := by omega
+  simp [h1, h2, h3]
+  omega
+
+/-- whatever the template functions return is still escaped safely (the escaper theorems hold for every string) -/
+theorem limited_text_is_escaped_safely (limit : Nat) (s out : Str) (_ : limitPre limit s = some out ∨ limitPost limit s = some out) :
+    textSafe (htmlEscape out) = true := ctx_safe_html out
+
+example : limitPre 3 [97, 98, 99, 100, 101] = some ([46, 46, 46, 40, 50, 32, 98, 121, 116, 101, 115, 32, 115, 107, 105, 112, 112, 101, 100, 41, 46, 46, 46] ++ [99, 100, 101]) := by decide
+example : addLineNumbers [97, 10, 10, 98, 10] 10 true = [(6, [97]), (7, []), (8, [98])] ∧
+    addLineNumbers [97, 10, 98] 10 false = [(11, [97]), (12, [98])] := by decide
+
 /-- the model's rune loop is not cut short by its fuel: any larger fuel gives the same result -/
 theorem model_loop_total (repl : Nat → Option Str) (s : Str) (k : Nat) :
     runeLoop repl (s.length + k) s = runeLoop repl s.length s := by
